@@ -209,12 +209,17 @@ class WeightedMonitor:
                     ctx.hit(f"piece:nan:{'no-activations' if not gs else 'all-weights-zero'}")
                 continue
             mag = max(1.0, abs(e), max((abs(w * z) for (t, w), z in zip(gs, zs) if z is not None), default=0.0))
-            if not feq(g, e, 1e-12 * mag):
+            # degrees handed over in single precision are combined in single precision (NumPy keeps the array's type when the
+            # other operand is a scalar): the result is then only as good as float32 arithmetic
+            single = any(getattr(a.degree, "dtype", None) == np.float32 for a in agg.terms)
+            if single:
+                ctx.hit("piece:single-precision degrees (tolerance 1e-5)")
+            if not feq(g, e, (1e-5 if single else 1e-12) * mag):
                 ctx.violation(f"{kind}: result differs from the grouped {'sum(w z)/sum(w)' if kind == 'WeightedAverage' else 'sum(w z)'}", dict(case, row=row, groups=[(t.name, w) for t, w in gs], z=zs), e, g)
                 continue
             if kind == "WeightedAverage" and ks and len(ks) == len([z for z in zs if z is not None]) and all(w >= 0 for _, w in gs):
                 ctx.hit("law:average-of-constants-bounded")
-                if not (min(ks) - 1e-12 * mag <= g <= max(ks) + 1e-12 * mag):
+                if not (min(ks) - (1e-5 if single else 1e-12) * mag <= g <= max(ks) + (1e-5 if single else 1e-12) * mag):
                     ctx.violation("WeightedAverage of constants lies outside [min, max] of the activated constants", dict(case, row=row), [min(ks), max(ks)], g)
             if zero_members:
                 ctx.hit("piece:zero-degree-member")
@@ -293,7 +298,7 @@ def run(ctx):
         "must be rejected; a zero-degree activation is inserted at every position (metamorphic). distinct_nontrivial = distinct (defuzzifier, "
         "kind used, grouped (term, degree) list, z values) with at least two groups"
     )
-    ctx.assumptions += ["z values come from the library's own membership/tsukamoto (C03/C11)", "degrees of a repeated term are folded with the scalar formulas of vf/ref/norms.py", "Tsukamoto degrees above the term's height (possible under sum-like aggregation) are out of domain", "tolerance 1e-12 x magnitude"]
+    ctx.assumptions += ["z values come from the library's own membership/tsukamoto (C03/C11)", "degrees of a repeated term are folded with the scalar formulas of vf/ref/norms.py", "Tsukamoto degrees above the term's height (possible under sum-like aggregation) are out of domain", "tolerance 1e-12 x magnitude (1e-5 when a degree array is float32: the library then computes in single precision)"]
     funcs = {"WeightedAverage.defuzzify": fl.WeightedAverage.defuzzify, "WeightedSum.defuzzify": fl.WeightedSum.defuzzify, "Aggregated.grouped_terms": fl.Aggregated.grouped_terms, "WeightedDefuzzifier.infer_type": plain_function(fl.WeightedDefuzzifier, "infer_type")}
     funcs = {k: v for k, v in funcs.items() if v is not None and hasattr(v, "__code__")}
     with Reach(funcs) as reach, Probe() as probe:
@@ -333,7 +338,7 @@ def run(ctx):
                             ctx.evaluated()
                             a, b = np.broadcast_arrays(base, again)
                             for u, v in zip(a.ravel(), b.ravel()):
-                                if not feq(float(u), float(v), 1e-12 * max(1.0, abs(float(u)))):
+                                if not feq(float(u), float(v), (1e-5 if any(getattr(d_, "dtype", None) == np.float32 for _, d_ in acts) else 1e-12) * max(1.0, abs(float(u)))):
                                     # (if the monitor already blamed the zero-degree NaN mechanism this is the same defect seen metamorphically)
                                     ctx.violation("inserting a zero-degree activation changes the result" + (" (Tsukamoto, NaN)" if math.isnan(float(v)) and type_ != "TakagiSugeno" else ""), {"defuzzifier": cls.__name__, "type": type_, "set": out.parameters(), "inserted": t.name, "position": pos}, float(u), float(v))
                                     break
